@@ -1355,4 +1355,114 @@ theorem progress (ops : List Pos) (apex : Pos) (depth : Nat) (seeds : List Pos) 
         have hpin : p ∈ ops := hin p (by intro e2; rw [e2] at hpk; simp [heldBy] at hpk)
         rw [hallr p hpin] at hpk; simp [heldBy] at hpk
 
+/-! ### the liveness theorem -/
+
+structure AllInv (ops : List Pos) (apex : Pos) (depth : Nat) (s : S) : Prop where
+  ph : InvPh ops depth s
+  w : InvW apex s
+  lw : LW s
+  lc : LC ops s
+  lh : LH s
+  lq : LQ ops depth s
+
+theorem all_init (ops : List Pos) (apex : Pos) (depth : Nat) (seeds : List Pos) (pre : Pos → Nat)
+    (cfg : Cfg ops apex depth seeds pre) (hsn : seeds.Nodup)
+    (hchild : ∀ p ∈ ops, p.n + 1 < depth → ∃ k, k < 4 ∧ p.child k ∈ ops) (n cap : Nat) (hn : 0 < n) :
+    AllInv ops apex depth (init n cap apex seeds pre) :=
+  ⟨invph_init ops apex depth seeds pre cfg n cap, invw_init n cap apex seeds pre, lw_init n cap apex seeds pre hn,
+    (sumP_zero ops _ isD (fun _ _ => rfl)).symm, lh_init n cap apex seeds pre,
+    lq_init ops apex depth seeds pre cfg hsn hchild n cap⟩
+
+theorem all_step (ops : List Pos) (apex : Pos) (depth : Nat) (seeds : List Pos) (pre : Pos → Nat)
+    (cfg : Cfg ops apex depth seeds pre) (s s' : S) (l : L) (h : AllInv ops apex depth s) (hs : step s l = some s') :
+    AllInv ops apex depth s' := by
+  have hph' := invph_step ops apex depth seeds pre cfg s s' l h.w.apexC h.ph hs
+  exact ⟨hph', invw_step apex s s' l h.w hs, lw_step s s' l h.lw hs, lc_step ops depth s s' l cfg.nodup h.ph h.lc hs,
+    lh_step s s' l h.lh hs, lq_step ops depth s s' l hph' h.lq hs⟩
+
+theorem all_run (ops : List Pos) (apex : Pos) (depth : Nat) (seeds : List Pos) (pre : Pos → Nat)
+    (cfg : Cfg ops apex depth seeds pre) : ∀ (tr : List L) (s s' : S), AllInv ops apex depth s → run s tr = some s' →
+    AllInv ops apex depth s' := by
+  intro tr
+  induction tr with
+  | nil => intro s s' h hr; simp only [run, Option.some.injEq] at hr; subst hr; exact h
+  | cons l ls ih =>
+    intro s s' h hr
+    simp only [run] at hr
+    cases hst : step s l with
+    | none => rw [hst] at hr; cases hr
+    | some s1 =>
+      rw [hst] at hr
+      exact ih s1 s' (all_step ops apex depth seeds pre cfg s s1 l h hst) hr
+
+theorem run_cons (s s1 : S) (l : L) (tr : List L) (h : step s l = some s1) : run s (l :: tr) = run s1 tr := by
+  simp [run, h]
+
+/-- every state satisfying the invariants has a continuation ending with `walk` returned -/
+theorem can_finish_inv (ops : List Pos) (apex : Pos) (depth : Nat) (seeds : List Pos) (pre : Pos → Nat)
+    (cfg : Cfg ops apex depth seeds pre) : ∀ (a b c : Nat) (s : S), phaseW ops s = a → pcRank s = b → workW s = c →
+    AllInv ops apex depth s → ∃ tr s', run s tr = some s' ∧ s'.pc = .returned := by
+  intro a
+  induction a using Nat.strongRecOn with
+  | _ a iha =>
+    intro b
+    induction b using Nat.strongRecOn with
+    | _ b ihb =>
+      intro c
+      induction c using Nat.strongRecOn with
+      | _ c ihc =>
+        intro s ha hb hc h
+        by_cases hp : s.pc = .returned
+        · exact ⟨[], s, rfl, hp⟩
+        · obtain ⟨l, s1, hstep, hlt⟩ := progress ops apex depth seeds pre cfg s h.ph h.w h.lw h.lc h.lh h.lq hp
+          have h1 := all_step ops apex depth seeds pre cfg s s1 l h hstep
+          have key : ∃ tr s', run s1 tr = some s' ∧ s'.pc = .returned := by
+            rcases hlt with e | ⟨e1, e2⟩ | ⟨e1, e2, e3⟩
+            · exact iha (phaseW ops s1) (by omega) (pcRank s1) (workW s1) s1 rfl rfl rfl h1
+            · exact ihb (pcRank s1) (by omega) (workW s1) s1 (by omega) rfl rfl h1
+            · exact ihc (workW s1) (by omega) s1 (by omega) (by omega) rfl h1
+          obtain ⟨tr, s', hrun, hret⟩ := key
+          exact ⟨l :: tr, s', by rw [run_cons s s1 l tr hstep]; exact hrun, hret⟩
+
+/-- **par_walk_progress** (no deadlock, termination always possible): from every reachable state of the parallel walk —
+any number of workers, any done-queue capacity, any interleaving so far — there is a continuation after which `walk`
+has returned; and in that state every worker has exited and the callback has been started and completed exactly once for
+every operation, and for nothing else.  `hchild` (every non-leaf operation has a live child) and `hsn` are delivered by the
+prologue, see `C01Red`. -/
+theorem par_walk_progress (ops : List Pos) (apex : Pos) (depth : Nat) (seeds : List Pos) (pre : Pos → Nat)
+    (cfg : Cfg ops apex depth seeds pre) (hsn : seeds.Nodup)
+    (hchild : ∀ p ∈ ops, p.n + 1 < depth → ∃ k, k < 4 ∧ p.child k ∈ ops)
+    (n cap : Nat) (hn : 0 < n) (s : S) (hr : Reachable n cap apex seeds pre s) :
+    ∃ tr s', run s tr = some s' ∧ s'.pc = .returned ∧ (∀ k, k < s'.n → s'.ws k = .exited) ∧ s'.log.Nodup ∧
+      (∀ p, Ev.cbBegin p ∈ s'.log ↔ p ∈ ops) ∧ (∀ p, Ev.cbEnd p ∈ s'.log ↔ p ∈ ops) := by
+  obtain ⟨tr0, h0⟩ := hr
+  have hall := all_run ops apex depth seeds pre cfg tr0 _ s (all_init ops apex depth seeds pre cfg hsn hchild n cap hn) h0
+  obtain ⟨tr, s', hrun, hret⟩ := can_finish_inv ops apex depth seeds pre cfg _ _ _ s rfl rfl rfl hall
+  have hr' : Reachable n cap apex seeds pre s' := by
+    refine ⟨tr0 ++ tr, ?_⟩
+    rw [run_append, h0]; exact hrun
+  exact ⟨tr, s', hrun, hret, par_walk_terminal ops apex depth seeds pre cfg n cap s' hr' hret⟩
+
+/-- non-vacuity: the strategy finishes a concrete walk (depth 2, the apex and one live level-1 tile; two workers, capacity 1) -/
+example : ∃ tr s', run (init 2 1 ⟨0, 0, 0⟩ [⟨1, 1, 0⟩] (fun p => if p = ⟨0, 0, 0⟩ then 13 else 0)) tr = some s' ∧ s'.pc = .returned := by
+  have cfg : Cfg [⟨1, 1, 0⟩, ⟨0, 0, 0⟩] ⟨0, 0, 0⟩ 2 [⟨1, 1, 0⟩] (fun p => if p = ⟨0, 0, 0⟩ then 13 else 0) := by
+    refine ⟨by decide, by decide, by decide, by decide, ?_, ?_, by decide⟩
+    · intro p
+      constructor
+      · intro h; simp at h; subst h; decide
+      · rintro ⟨h1, h2⟩
+        simp at h1
+        rcases h1 with e | e
+        · subst e; simp
+        · subst e; simp at h2
+    · intro p hp hl
+      simp at hp
+      rcases hp with e | e
+      · subst e; simp at hl
+      · subst e
+        refine ⟨by decide, ?_⟩
+        decide
+  obtain ⟨tr, s', h1, h2, _⟩ := par_walk_progress _ _ _ _ _ cfg (by decide) (by decide) 2 1 (by omega) _ ⟨[], rfl⟩
+  exact ⟨tr, s', h1, h2⟩
+
 end C01Live
